@@ -92,7 +92,7 @@ def main():
                 # corpus of past failures first
                 H.evaluate(comp, corpus_cases(prop, comp_name), outcome)
                 H.evaluate(comp, gen(rng, tier), outcome)
-            if proof_problems or outcome.corr_fail:
+            if proof_problems or outcome.corr_fail or outcome.harness_errors:
                 # failing-input search: the thorough generators
                 if tier != "thorough" and not outcome.oracle_fail:
                     for comp_name, gen_name in spec["suites"]:
@@ -128,7 +128,11 @@ def main():
         print("property %s fails on the implementation: %s" % (prop, json.dumps(case, default=str)[:600]))
         print("VIOLATION property=%s replay=%s" % (prop, path))
         rc = 1
-    elif proof_problems or outcome.corr_fail:
+    elif proof_problems or outcome.corr_fail or outcome.harness_errors:
+        if outcome.harness_errors:
+            case, err = outcome.harness_errors[0]
+            proof_problems.append("the harness could not observe the implementation on %d cases (its interface changed?), e.g. %s on %s"
+                                  % (len(outcome.harness_errors), err, json.dumps(case, default=str)[:300]))
         path = os.path.join(H.VERIF, "replays", "%s-%d-unproved.json" % (prop, seed))
         body = {"kind": "proof_broken" if proof_problems else "correspondence_broken", "property": prop,
                 "proof_problems": proof_problems,
